@@ -511,6 +511,116 @@ pub fn arb_seq(max_count: u16) -> impl Strategy<Value = SeqCase> {
         })
 }
 
+// ---------------------------------------------------------------------------
+// the byte stream a session really writes (PeerSession::flush_tx cuts what the codec
+// produced into socket writes): a table dump larger than one transmit buffer to a
+// wire-level peer that only reads
+// ---------------------------------------------------------------------------
+
+pub const DUMP_RULE: &str = "session-dump: the RIB is filled with 1..4000 IPv4 routes (each with attributes of its own, or sharing attribute sets so that UPDATEs carry many prefixes) before a wire-level eBGP peer establishes; the peer reads the initial dump up to End-of-RIB. The bytes received must tile into well-formed BGP messages (marker, length within bounds, known type), parse with the repository's decoder, and announce exactly the prefixes in the RIB, each once. non-trivial := the dump is larger than 64 KiB (more than one transmit buffer)";
+
+#[derive(Clone, Debug, Serialize, Deserialize)]
+pub struct DumpCase {
+    pub routes: u16,
+    /// routes per distinct attribute set (1 = every route its own UPDATE)
+    pub share: u8,
+}
+
+pub fn check_dump(c: &DumpCase) -> CheckResult {
+    let rt = tokio::runtime::Builder::new_current_thread().enable_all().event_interval(1).build().map_err(|e| Failure::new("harness", e.to_string()))?;
+    rt.block_on(dump(c))
+}
+
+async fn dump(c: &DumpCase) -> CheckResult {
+    use crate::event::verif::NeighborCfg;
+    use crate::props::wirepeer::{WirePeer, fresh_loopback};
+    use std::collections::BTreeSet;
+    use std::net::{IpAddr, Ipv4Addr};
+    use std::sync::Arc;
+    let src = fresh_loopback();
+    let cfg = NeighborCfg { addr: src, remote_asn: 65100, local_asn: 0, rs_client: false, rr_client: false, cluster_id: None, admin_down: false, holdtime: 90, families: vec![(Family::IPV4, 0)], prefix_limit: None, gr: None, llgr: None };
+    let mut p = WirePeer::new(65000, cfg).await?;
+    let n = c.routes.max(1) as u32;
+    let share = c.share.max(1) as u32;
+    let source = Arc::new(rustybgp_table::Source::new(IpAddr::V4(Ipv4Addr::new(10, 0, 0, 77)), IpAddr::V4(Ipv4Addr::new(10, 0, 0, 1)), 65200, 65000, Ipv4Addr::new(7, 7, 7, 7), rustybgp_table::PeerRole::Ebgp));
+    let mut want = BTreeSet::new();
+    for i in 0..n {
+        let attrs = Arc::new(AttrSpec { origin: Some(0), as_path: Some(vec![Seg { t: SEG_SEQ, n: 1, base: 65200, asns: vec![] }]), communities: vec![0xfde8_0000 + i / share], ..Default::default() }.build());
+        let net = v4(10 + (i >> 16) as u8, (i >> 8) as u8, i as u8, 0, 24);
+        want.insert(format!("{net:?}"));
+        let _ = p.rig.tables.insert_route(source.clone(), Family::IPV4, PathNlri { path_id: 0, nlri: net }, Some(bgp::Nexthop::V4(Ipv4Addr::new(192, 0, 2, 1))), attrs, None, 1);
+    }
+    p.connect().await?;
+    let caps = vec![bgp::Capability::MultiProtocol(Family::IPV4), bgp::Capability::FourOctetAsNumber(65100)];
+    if !p.establish(65100, 0, 0x0a00_0004, caps.clone()).await? {
+        return Err(Failure::new("harness", "the session did not establish".to_string()));
+    }
+    // read until End-of-RIB (an UPDATE of 23 octets) closes the dump
+    let ends_with_eor = |rx: &[u8]| rx.len() >= 23 && rx[rx.len() - 23..rx.len() - 7] == [0xff; 16] && rx[rx.len() - 7..] == [0, 23, 2, 0, 0, 0, 0];
+    let mut last = 0;
+    let mut quiet = 0;
+    for _ in 0..20_000 {
+        p.settle().await;
+        if ends_with_eor(&p.rx) || p.is_closed() {
+            break;
+        }
+        if p.rx.len() == last {
+            quiet += 1;
+            if quiet > 6000 {
+                break;
+            }
+        } else {
+            quiet = 0;
+            last = p.rx.len();
+        }
+    }
+    let big = p.rx.len() > 65536;
+    // (1) framing
+    let mut codec = PeerCodec::negotiate(&caps, &caps);
+    let mut got: BTreeMap<String, usize> = BTreeMap::new();
+    let mut pos = 0;
+    let mut frames = 0;
+    while pos < p.rx.len() {
+        let rest = &p.rx[pos..];
+        if rest.len() < 19 {
+            return Err(Failure::new("stream-framing", format!("after {frames} good messages {} trailing octets are shorter than a BGP header ({} octets received)", rest.len(), p.rx.len())).with("big", big));
+        }
+        let len = u16::from_be_bytes([rest[16], rest[17]]) as usize;
+        if rest[..16] != [0xff; 16] || !(19..=4096).contains(&len) || !(1..=5).contains(&rest[18]) || len > rest.len() {
+            return Err(Failure::new("stream-framing", format!("after {frames} good messages, at octet {pos} of {}: marker ok = {}, length {len}, type {} - the stream does not continue with a BGP message", p.rx.len(), rest[..16] == [0xff; 16], rest[18])).with("big", big));
+        }
+        if rest[18] == 2 {
+            let parsed = codec.parse_message(&rest[..len]).map_err(|e| Failure::new("stream-framing", format!("message #{frames} (UPDATE of {len} octets) does not parse: {e:?}")).with("big", big))?;
+            let msgs = bgp::validate_message(parsed, true).map_err(|e| Failure::new("stream-framing", format!("message #{frames} is refused: {e:?}")).with("big", big))?;
+            for m in msgs {
+                if let Message::Update(Update::Reach { entries, .. }) = m {
+                    for e in entries {
+                        *got.entry(format!("{:?}", e.nlri)).or_default() += 1;
+                    }
+                }
+            }
+        }
+        frames += 1;
+        pos += len;
+    }
+    // (2) contents
+    if !ends_with_eor(&p.rx) {
+        return Err(Failure::new("dump-incomplete", format!("the initial dump of {n} routes did not end with End-of-RIB ({} octets, {frames} messages, connection closed by the daemon: {})", p.rx.len(), p.is_closed())).with("big", big));
+    }
+    if let Some((k, v)) = got.iter().find(|(_, v)| **v > 1) {
+        return Err(Failure::new("routes-differ", format!("{k} is announced {v} times in one initial dump")).with("big", big));
+    }
+    let got: BTreeSet<String> = got.into_keys().collect();
+    if got != want {
+        return Err(Failure::new("routes-differ", format!("the initial dump announces {} prefixes, the RIB holds {} (first missing: {:?}, first extra: {:?})", got.len(), want.len(), want.difference(&got).next(), got.difference(&want).next())).with("big", big));
+    }
+    Ok(CaseInfo::nt(big).class_if(big, "dump-over-64KiB"))
+}
+
+pub fn arb_dump() -> impl Strategy<Value = DumpCase> {
+    (prop_oneof![2 => 1u16..50, 2 => 800u16..1600, 3 => 1600u16..4000], prop_oneof![3 => Just(1u8), 1 => Just(2u8), 1 => Just(50u8)]).prop_map(|(routes, share)| DumpCase { routes, share })
+}
+
 pub fn run(r: &Run) {
     r.set_rule(RULE);
     r.assume("attributes handed to the encoder are values the wire decoder or the API produces (ascending type order, ORIGIN and AS_PATH present on announcements)");
@@ -519,12 +629,17 @@ pub fn run(r: &Run) {
     r.prop("messages", r.tier.pick(40_000, 1_000_000), || arb_case(r.tier.pick(2500, 2500)), check);
     r.prop("big-open", r.tier.pick(4_000, 100_000), arb_big_open, check);
     r.prop("sessions", r.tier.pick(20_000, 500_000), || arb_seq(40), check_seq);
+    r.assume(DUMP_RULE);
+    r.prop("session-dump", r.tier.pick(96, 3_000), arb_dump, check_dump);
 }
 
 pub fn replay(sub: &str, case: &Value) -> Result<CheckResult, String> {
     if sub == "sessions" {
         let c: SeqCase = decode_case(case)?;
         return Ok(check_seq(&c));
+    }
+    if sub == "session-dump" {
+        return Ok(check_dump(&decode_case(case)?));
     }
     let c: Case = decode_case(case)?;
     Ok(check(&c))
